@@ -1,7 +1,7 @@
 CONSTANTS
   Dev = {}
   MaxOps = 7
-  MaxViewOps = 6
+  MaxViewOps = 5
   ManyViews = FALSE
 SPECIFICATION MCSpec
 VIEW NoHistView
